@@ -8,7 +8,7 @@ LEVEL_NOTE = "cap_bound / size_bound are stated on the abstract final state; by 
 RULE = ("random histories of deliveries of varying sizes (150 B - 5 KB, incl. oversize) interleaved with get/list/seen/remove/purge/visit under caps {0,1,2,5} x size limits {0,1,4 KiB}, 1-3 mailboxes; both stores for the cap, memory store for the size limit; "
         "characters; missing / not-yet-issued / bogus / 'latest' handles, double removes, purge-then-latest) on a fresh real "
         "memory store and a fresh real file store; distinct = distinct input line; non-trivial = at least one add and one "
-        "operation on a stored message; plus 16 file-store histories with the cap on a FULL mailbox whose deliveries straddle the wrap of the id counter (arrival order is not id order); plus 40 file-store histories in which the store is re-opened on the same path with ANOTHER cap (n -> smaller n, 0 -> n, n -> 0 -> n): a mailbox above the new cap keeps its messages until its next delivery, which must leave exactly the newest cap (several evictions at once); plus 12 memory-store histories (limit 4 KiB) in which ONE delivery must displace 1, 10, 32, 33, 60 or all 64 resident small messages; plus 21 histories per run over the CONFIGURATION as an operator can write it, through storage.FromConfig and the real constructors (maxkb present as 0, empty, negative, non-numeric, huge; negative cap; trailing slash on the file path; unknown parameter): 'no limit' spellings behave as no limit, refused ones end with NEWERR")
+        "operation on a stored message; plus 16 file-store histories with the cap on a FULL mailbox whose deliveries straddle the wrap of the id counter (arrival order is not id order); plus 40 file-store histories in which the store is re-opened on the same path with ANOTHER cap (n -> smaller n, 0 -> n, n -> 0 -> n): a mailbox above the new cap keeps its messages until its next delivery, which must leave exactly the newest cap (several evictions at once); plus 12 memory-store histories (limit 4 KiB) in which ONE delivery must displace 1, 10, 32, 33, 60 or all 64 resident small messages; plus 21 histories per run over the CONFIGURATION as an operator can write it, through storage.FromConfig and the real constructors (maxkb present as 0, empty, negative, non-numeric, huge; negative cap; trailing slash on the file path; unknown parameter): 'no limit' spellings behave as no limit, refused ones end with NEWERR; plus 7 file-store histories in which the cap is lowered so that 1, 9, 20, 21, 50, 200, 600 messages must go at the next delivery, checked after each of the next three deliveries")
 TRUSTED = ["handles: messages are named by 'k-th add to this mailbox' / 'latest' / a bogus literal; the driver's id<->handle table (Go map) is modelled by StoreSpecImpl.run_impl", 'message content is abstracted to (date, tag, size, seen): the driver checks that from/to/subject/body/mailbox read back equal what the add with that handle wrote and prints the tag only then', 'VisitMailboxes enumeration order (map / readdir order) is not compared: groups are sorted by mailbox on both sides; empty groups are dropped', 'file store: byte-level disk protocol (tmp+rename, unlink order, gob) is not in this model (C10/C11); I/O errors are not modelled', 'memory store: the size enforcer goroutine is modelled as a synchronous sub-step (callers block on md.done); creation of an empty mailbox record by reads is not modelled (unobservable)']
 ASSUMPTIONS = ['maxkb values whose *1024 overflows int64 (>= 2^53 KiB) are outside the model: the unchanged constructor then computes a negative limit', 'maxkb is given in KiB (limit = maxkb*1024 bytes), as mem.New computes it']
 NOT_PROVED = []
